@@ -27,6 +27,13 @@ import (
 	"github.com/golang/mock/gomock"
 )
 
+
+var (
+	vfAgentID = types.PeerID("verif-agent-id")
+	vfOtherID = types.PeerID("verif-other-id")
+	vfBPIDs   = [4]types.PeerID{"verif-bp0", "verif-bp1", "verif-bp2", "verif-bp3"}
+)
+
 type vfChain struct {
 	V     int32  `json:"v"`
 	Pub   bool   `json:"pub"`
@@ -60,6 +67,38 @@ type vfStatus struct {
 	Role      int32    `json:"role"`
 	Producers []string `json:"producers"`
 	BadCert   bool     `json:"bad_cert"`
+	NoAddrs   bool     `json:"no_addrs"`  // leave Sender.Addresses empty (default: one multiaddr so that the 0.3.x fix-up is not involved)
+	// 2.0.0 role / certificate rule with real keys: peer ids "@agent"/"@other", producers "@bp0".."@bp3"
+	Certs []vfCertSpec `json:"certs"`
+}
+
+type vfCertSpec struct {
+	BP      int    `json:"bp"`      // signing producer key index
+	Agent   string `json:"agent"`   // "@agent" or "@other": the agent id the certificate is issued for
+	Tamper  bool   `json:"tamper"`  // flip a signature byte
+	Expired bool   `json:"expired"` // validity period in the past
+}
+
+type vfCertObs struct {
+	Valid bool   `json:"valid"` // by construction: signed by the producer key, in its validity period
+	Agent string `json:"agent"`
+	BP    string `json:"bp"`
+}
+
+type vfDecoded struct {
+	OK        bool     `json:"ok"`
+	ChainID   string   `json:"chain_id"`
+	BestHash  string   `json:"best_hash"`
+	Height    uint64   `json:"height"`
+	NilSender bool     `json:"nil_sender"`
+	Addr      string   `json:"addr"`
+	NAddrs    int      `json:"naddrs"`
+	Port      uint32   `json:"port"`
+	Peer      string   `json:"peer"`
+	Genesis   string   `json:"genesis"`
+	Role      int32    `json:"role"`
+	Producers []string `json:"producers"`
+	NCerts    int      `json:"ncerts"`
 }
 
 type vfHSCase struct {
@@ -72,6 +111,7 @@ type vfHSCase struct {
 	Keep       int    `json:"keep"`        // >0: keep only that many bytes of the frame
 	Cut        int    `json:"cut"`         // >0: drop that many bytes from the end of the frame
 	RawStream  string `json:"raw_stream"`  // if set: the inbound stream is exactly these bytes (hex); "-" = empty stream
+	PayloadRaw string `json:"payload_raw"` // if set: the frame's payload is exactly these bytes (hex) instead of the marshalled status; "-" = empty
 }
 
 type vfHSObs struct {
@@ -82,6 +122,16 @@ type vfHSObs struct {
 	ChainID  string `json:"chain_id"` // the status chain id bytes actually used
 	Stream   string `json:"stream"`   // the inbound byte stream actually used (frame modes)
 	MaxLen   uint32 `json:"maxlen"`   // p2pcommon.MaxPayloadLength in force
+	PeerUsed      string      `json:"peer_used"`      // status peer id actually used (hex)
+	LocalPeerUsed string      `json:"local_peer_used"`
+	ProducersUsed []string    `json:"producers_used"`
+	CertsUsed     []vfCertObs `json:"certs_used"`
+	Dec           *vfDecoded  `json:"dec,omitempty"` // payload_raw: what protobuf decoding of the payload gives
+	// what the handshaker reports about the remote peer after an accepted status ("-" = not available in this mode)
+	ResPeer string `json:"res_peer"`
+	ResHash string `json:"res_hash"`
+	ResNo   uint64 `json:"res_no"`
+	ResSet  bool   `json:"res_set"`
 	Panic    bool   `json:"panic"`
 }
 
@@ -120,7 +170,11 @@ func vfBuildStatus(s *vfStatus) (*types.Status, []byte) {
 	if !s.NilSender {
 		pa := &types.PeerAddress{Address: s.Addr, Port: 7846, PeerID: vfHex(s.Peer), Role: types.PeerRole(s.Role), Version: "v2.0.0"}
 		for _, p := range s.Producers {
-			pa.ProducerIDs = append(pa.ProducerIDs, vfHex(p))
+			pa.ProducerIDs = append(pa.ProducerIDs, vfPeerRef(p))
+		}
+		pa.PeerID = vfPeerRef(s.Peer)
+		if !s.NoAddrs {
+			pa.Addresses = []string{"/ip4/192.168.1.10/tcp/7846"}
 		}
 		st.Sender = pa
 	}
@@ -128,6 +182,41 @@ func vfBuildStatus(s *vfStatus) (*types.Status, []byte) {
 		st.Certificates = []*types.AgentCertificate{{CertVersion: 1, BPID: []byte{1, 2, 3}}}
 	}
 	return st, cid
+}
+
+
+// vfPeerRef: "@agent", "@other", "@bp<i>" name real peer ids generated at start-up; anything else is hex.
+func vfPeerRef(s string) []byte {
+	switch {
+	case s == "@agent":
+		return []byte(vfAgentID)
+	case s == "@other":
+		return []byte(vfOtherID)
+	case len(s) == 4 && s[:3] == "@bp":
+		return []byte(vfBPIDs[int(s[3]-'0')])
+	}
+	return vfHex(s)
+}
+
+func vfDecode(payload []byte) *vfDecoded {
+	d := &vfDecoded{}
+	st := &types.Status{}
+	if err := p2putil.UnmarshalMessageBody(payload, st); err != nil {
+		return d
+	}
+	d.OK = true
+	d.ChainID, d.BestHash, d.Height = hex.EncodeToString(st.ChainID), hex.EncodeToString(st.BestBlockHash), st.BestHeight
+	d.Genesis, d.NCerts = hex.EncodeToString(st.Genesis), len(st.Certificates)
+	if st.Sender == nil {
+		d.NilSender = true
+		return d
+	}
+	d.Addr, d.NAddrs, d.Peer, d.Role = st.Sender.Address, len(st.Sender.Addresses), hex.EncodeToString(st.Sender.PeerID), int32(st.Sender.Role)
+	d.Port = st.Sender.Port
+	for _, p := range st.Sender.ProducerIDs {
+		d.Producers = append(d.Producers, hex.EncodeToString(p))
+	}
+	return d
 }
 
 var vfGoAwayClass = map[string]int{"malformed message": 20, "unexpected message type": 21, "malformed status message": 23, "wrong status": 1, "different chainID": 2, "wrong block hash": 3,
@@ -214,7 +303,18 @@ func TestVerifC18HS030Engine(t *testing.T) {
 			}()
 			st, cid := vfBuildStatus(&c.Status)
 			o.ChainID = hex.EncodeToString(cid)
-			peerID := types.PeerID(vfHex(c.Local.Peer))
+			o.LocalPeerUsed = hex.EncodeToString(vfPeerRef(c.Local.Peer))
+			if st.Sender != nil {
+				o.PeerUsed = hex.EncodeToString(st.Sender.PeerID)
+				for _, p := range st.Sender.ProducerIDs {
+					o.ProducersUsed = append(o.ProducersUsed, hex.EncodeToString(p))
+				}
+			}
+			for _, cs := range c.Status.Certs {
+				o.CertsUsed = append(o.CertsUsed, vfCertObs{Valid: !cs.Tamper && !cs.Expired, Agent: hex.EncodeToString(vfPeerRef(cs.Agent)),
+					BP: hex.EncodeToString([]byte(vfBPIDs[cs.BP]))})
+			}
+			peerID := types.PeerID(vfPeerRef(c.Local.Peer))
 			gen := vfHex(c.Local.Genesis)
 			vm := vfVM{c.Local}
 			var written bytes.Buffer
@@ -223,6 +323,14 @@ func TestVerifC18HS030Engine(t *testing.T) {
 				body, err := p2putil.MarshalMessageBody(st)
 				if err != nil {
 					panic(err)
+				}
+				if c.PayloadRaw == "-" {
+					body = []byte{}
+				} else if c.PayloadRaw != "" {
+					body = vfHex(c.PayloadRaw)
+				}
+				if c.PayloadRaw != "" {
+					o.Dec = vfDecode(body)
 				}
 				sp := p2pcommon.StatusRequest
 				if c.FrameProto != 0 {
@@ -250,25 +358,30 @@ func TestVerifC18HS030Engine(t *testing.T) {
 			}
 			rwc := vfRWC{&input, &written}
 			var hsErr error
+			var hsRes *p2pcommon.HandshakeResult
+			var base *V030Handshaker
 			switch c.HS {
 			case 31:
 				h := NewV030VersionedHS(mockPM, mockActor, logger, c.Local.Chain.id(), peerID, rwc)
+				base = h
 				if c.Mode == "inbound" {
-					_, hsErr = h.DoForInbound(context.Background())
+					hsRes, hsErr = h.DoForInbound(context.Background())
 				} else {
 					hsErr = h.checkRemoteStatus(st)
 				}
 			case 32:
 				h := NewV032VersionedHS(mockPM, mockActor, logger, c.Local.Chain.id(), peerID, rwc, gen)
+				base = &h.V030Handshaker
 				if c.Mode == "inbound" {
-					_, hsErr = h.DoForInbound(context.Background())
+					hsRes, hsErr = h.DoForInbound(context.Background())
 				} else {
 					hsErr = h.checkRemoteStatus(st)
 				}
 			case 33:
 				h := NewV033VersionedHS(mockPM, mockActor, logger, vm, peerID, rwc, gen)
+				base = &h.V030Handshaker
 				if c.Mode == "inbound" {
-					_, hsErr = h.DoForInbound(context.Background())
+					hsRes, hsErr = h.DoForInbound(context.Background())
 				} else {
 					hsErr = h.checkRemoteStatus(st)
 				}
@@ -276,6 +389,11 @@ func TestVerifC18HS030Engine(t *testing.T) {
 				panic("unknown handshaker")
 			}
 			vfClassify(&o, hsErr, vfLastGoAway(&written))
+			if hsErr == nil && hsRes != nil {
+				o.ResSet, o.ResPeer, o.ResHash, o.ResNo = true, hex.EncodeToString([]byte(hsRes.Meta.ID)), hex.EncodeToString(hsRes.BestBlockHash[:]), hsRes.BestBlockNo
+			} else if hsErr == nil && base != nil {
+				o.ResSet, o.ResPeer, o.ResHash, o.ResNo = true, hex.EncodeToString([]byte(base.remoteMeta.ID)), hex.EncodeToString(base.remoteHash[:]), base.remoteNo
+			}
 		}()
 		b, _ := json.Marshal(o)
 		fmt.Fprintln(w, string(b))
